@@ -134,7 +134,7 @@ Qed.
 
 (* the state after a reply frame fr was written: the journal and the counters are not touched *)
 Definition sent (fr : row) (s : st) : st :=
-  mkSt (cstate s) (initiator s) (testreq_pending s) (nout s) (sout s) (clock s + 1)
+  mkSt (cstate s) (initiator s) (testreq_id s) (nout s) (sout s) (clock s + 1)
        (rows s) (wire s ++ [fr]) (calls s) (states s).
 
 Definition gap_frame (a h k : Z) : row :=
@@ -164,7 +164,7 @@ Lemma send_replay_gen r s :
                     (filter (fun fd => negb (header_skipped (fst fd))) (copy_body r))) s).
 Proof.
   intros Hs Ht. unfold send_msg, mk_replay. rewrite gates_ok by assumption.
-  destruct (sess_false_types _ Ht) as [Ht1 Ht4]. cbn [m_type m_seq m_fields].
+  destruct (sess_false_types _ Ht) as [Ht1 Ht4]. unfold testreq_refused. cbn [m_type m_seq m_fields].
   rewrite Ht1. cbn [andb]. unfold select_seq, is_resend_reply, tag_is_Y. cbn [m_type m_seq m_fields]. rewrite Ht4.
   rewrite (get_tag_upsert_other T_PossDupFlag T_OrigSendingTime) by reflexivity.
   rewrite get_tag_upsert_same.
@@ -628,7 +628,7 @@ Lemma send_msg_frame_codec_row m s s' :
 Proof.
   unfold send_msg. destruct (send_gates m s) as [s1|] eqn:Hg; [|discriminate].
   apply gates_rows in Hg.
-  destruct (str_eqb (m_type m) MT_TESTREQUEST && negb (testreq_pending s1)); [discriminate|].
+  destruct (testreq_refused m s1); [discriminate|].
   destruct (select_seq m s1) as [[n no]|]; [|discriminate].
   destruct (is_resend_reply m).
   - intros [= <-]. left. exact Hg.
@@ -650,7 +650,7 @@ Lemma failed_send_writes_nothing m s e s' : send_msg m s = Exc e s' -> wire s' =
 Proof.
   unfold send_msg. pose proof (gates_wire m s _ eq_refl) as Hg.
   destruct (send_gates m s) as [s1|e1 s1]; cbn in Hg; [|intros [= _ <-]; exact Hg].
-  destruct (str_eqb (m_type m) MT_TESTREQUEST && negb (testreq_pending s1)); [intros [= _ <-]; exact Hg|].
+  destruct (testreq_refused m s1); [intros [= _ <-]; exact Hg|].
   destruct (select_seq m s1) as [[n no]|]; [|intros [= _ <-]; exact Hg].
   destruct (is_resend_reply m); [discriminate|].
   unfold persist. cbn [r_seq rows]. destruct (has_key n (rows s1)); [|discriminate].
@@ -1085,7 +1085,7 @@ Qed.
 Definition w_logon : row := mkRow 1 [65%N] (time_str 1) [([57; 56]%N, [48%N]); ([49; 48; 56]%N, [51; 48]%N)].
 Definition w_app (n : Z) : row := mkRow n [68%N] (time_str n) [([49; 49]%N, 99%N :: z_to_dec n); ([53; 53]%N, [83; 89; 77]%N)].
 Definition w_hb (n : Z) : row := mkRow n [48%N] (time_str n) [].
-Definition w_state (st0 nxt : Z) (rs : list row) : st := mkSt st0 false false nxt (nxt - 1) (nxt - 1) rs [] [] [].
+Definition w_state (st0 nxt : Z) (rs : list row) : st := mkSt st0 false None nxt (nxt - 1) (nxt - 1) rs [] [] [].
 Definition w_all (r : row) : bool := true.
 
 Ltac prove_pristine := unfold pristine; repeat split; try (vm_compute; congruence); repeat constructor.
@@ -1147,9 +1147,9 @@ Lemma unanswerable_requests_ok :
   /\ resend_correct w_all w_small (Some [120%N]) (dec 0)
   /\ resend_correct w_all w_small None (dec 0)
   /\ serve_resend w_all (dec 5) (dec 0) w_small
-     = (mkSt ST_ACTIVE false false 3 2 2 (rows w_small) [] [] [ST_HANDLING; ST_ACTIVE], Some EAssertion)
+     = (mkSt ST_ACTIVE false None 3 2 2 (rows w_small) [] [] [ST_HANDLING; ST_ACTIVE], Some EAssertion)
   /\ serve_resend w_all (Some [120%N]) (dec 0) w_small
-     = (mkSt ST_ACTIVE false false 3 2 2 (rows w_small) [] [] [ST_HANDLING; ST_ACTIVE], Some EValue).
+     = (mkSt ST_ACTIVE false None 3 2 2 (rows w_small) [] [] [ST_HANDLING; ST_ACTIVE], Some EValue).
 Proof. split; [by_total|]. split; [by_total|]. split; [by_total|]. split; vm_compute; reflexivity. Qed.
 
 (* BeginSeqNo <= 0, concretely *)
@@ -1198,3 +1198,26 @@ Lemma nonvacuous :
 Proof.
   split; [prove_journal_ok|]. split; [prove_nodup|]. split; [reflexivity|]. vm_compute. repeat split; reflexivity.
 Qed.
+
+(* the session-level test compares the WHOLE MsgType value: application types of which a
+   session-level value is a proper prefix (AE, AB, A1, 0Q, 1A, 2Z, 4B, 5X) are not session level,
+   and a type is session level exactly when it equals one of the six values *)
+Lemma is_sess_type_equality t : is_sess_type t = true <-> In t noreply_msgs.
+Proof.
+  unfold is_sess_type, mem_str. rewrite existsb_exists. split.
+  - intros (x & Hin & E). apply str_eqb_eq in E. subst x. exact Hin.
+  - intros Hin. exists t. split; [exact Hin|apply str_eqb_refl].
+Qed.
+
+Definition w_prefix_types : list str :=
+  [[65; 69]; [65; 66]; [65; 49]; [48; 81]; [49; 65]; [50; 90]; [52; 66]; [53; 88]]%N.
+Definition w_typed (n : Z) (t : str) : row := mkRow n t (time_str n) [([49; 49]%N, 99%N :: z_to_dec n)].
+Definition w_prefixed := w_state ST_ACTIVE 6
+  [w_logon; w_typed 2 [65; 69]%N; w_typed 3 [53; 88]%N; w_hb 4; w_typed 5 [49; 65]%N].
+Lemma prefix_types_ok :
+  forallb (fun t => negb (is_sess_type t)) w_prefix_types = true
+  /\ resend_correct w_all w_prefixed (dec 1) (dec 0)
+  /\ (let s' := fst (serve_resend w_all (dec 1) (dec 0) w_prefixed) in
+      map r_seq (wire s') = [1; 2; 3; 4; 5]
+      /\ map r_type (wire s') = [MT_SEQUENCERESET; [65; 69]%N; [53; 88]%N; MT_SEQUENCERESET; [49; 65]%N]).
+Proof. split; [vm_compute; reflexivity|]. split; [by_total|vm_compute; repeat split; reflexivity]. Qed.
